@@ -605,7 +605,7 @@ def run_shard(ctx):
                 pass
         return t
 
-    ctx.run_given(mk, ctx.budget(14000, 250000))
+    ctx.run_given(mk, ctx.budget(14000, 120000))
 
     def mk_rows():
         @given(row_values(), st.integers(0, 3), st.integers(0, 4), st.integers(0, 3))
@@ -619,7 +619,7 @@ def run_shard(ctx):
                 pass
         return t
 
-    ctx.run_given(mk_rows, ctx.budget(8000, 150000))
+    ctx.run_given(mk_rows, ctx.budget(8000, 70000))
 
     def mk_over():
         @given(row_values().filter(lambda c: len(c) >= 2).map(lambda c: c[:4]), st.integers(0, 3))
@@ -633,7 +633,7 @@ def run_shard(ctx):
                 pass
         return t
 
-    ctx.run_given(mk_over, ctx.budget(6000, 120000), salt=2)
+    ctx.run_given(mk_over, ctx.budget(6000, 60000), salt=2)
 
     def mk_acc():
         start = st.one_of(st.none(), st.tuples(st.integers(0, 4), st.sampled_from(["currency", "percentage", "float", "currency"]),
@@ -654,4 +654,4 @@ def run_shard(ctx):
                 pass
         return t
 
-    ctx.run_given(mk_acc, ctx.budget(5000, 100000), salt=3)
+    ctx.run_given(mk_acc, ctx.budget(5000, 50000), salt=3)
